@@ -49,6 +49,12 @@ def generate(rng, tier):
         if rng.random() < 0.3:
             rp.append('89:' + hx(value(rng, 'cui')))
         rng.shuffle(rq)
+        if kind == 'fticks' and rng.random() < 0.2:
+            # no FTicksMAC line: the default mode needs (and uses) the key
+            if key == '-':
+                key = '6b6579'
+            ops.append('op logline fticks %d d %s %d %d %d | %s | %s' % (rng.randrange(2), key, rng.choice([1, 2]),
+                       rng.choice([2, 2, 3, 5, 11]), rng.choice([1, 4]), ' '.join(rq), ' '.join(rp)))
         ops.append('op logline %s %d %d %s %d %d %d | %s | %s' % (kind, rng.randrange(2), mode, key, rng.choice([1, 2]),
                    rng.choice([2, 2, 3, 5, 11]), rng.choice([1, 4]), ' '.join(rq), ' '.join(rp)))
         if kind == 'reply' and rng.random() < 0.25:
